@@ -47,6 +47,7 @@ class Case:
     keep_out: bool = False  # do not wipe 'out' before (used for second runs into the same directory)
     ws_of: str | None = None  # reuse the workspace of another case id in the same batch (second CLI run)
     collect: bool = True
+    repeat: int = 1  # number of CLI runs into the same output directory (the record describes the state after the last)
 
 
 def _spell(kind: str, abs_path: str, cwd_abs: str) -> str:
@@ -124,6 +125,7 @@ def run_batch(cases: list[Case], timeout: float | None = None, steps="reach", en
                     "reach": c.reach,
                     "step_budget": c.step_budget,
                     "collect": c.collect,
+                    "repeat": c.repeat,
                 },
             )
         job = os.path.join(ws.root, "job.json")
